@@ -562,8 +562,10 @@ func symbolsFromBinaries(prof *profile.Profile, g *graph.Graph, rx *regexp.Regex
 		for _, ms := range msyms {
 			objSyms = append(objSyms,
 				&objSymbol{
-					sym:  ms,
-					file: f,
+					sym:   ms,
+					file:  f,
+					start: m.Start,
+					limit: m.Limit,
 				},
 			)
 		}
@@ -578,6 +580,8 @@ func symbolsFromBinaries(prof *profile.Profile, g *graph.Graph, rx *regexp.Regex
 type objSymbol struct {
 	sym  *plugin.Sym
 	file plugin.ObjFile
+	// Address range of the mapping the object file was opened for.
+	start, limit uint64
 }
 
 // orderSyms is a wrapper type to sort []*objSymbol by a supplied comparator.
@@ -596,6 +600,12 @@ func nodesPerSymbol(ns graph.Nodes, symbols []*objSymbol) map[*objSymbol]graph.N
 	for _, s := range symbols {
 		// Gather samples for this symbol.
 		for _, n := range ns {
+			// Only translate addresses of the symbol's own mapping: the object
+			// file computes its base address from the first address it is asked
+			// about, and an address of another binary makes that fail for good.
+			if s.limit > s.start && (n.Info.Address < s.start || n.Info.Address >= s.limit) {
+				continue
+			}
 			if address, err := s.file.ObjAddr(n.Info.Address); err == nil && address >= s.sym.Start && address < s.sym.End {
 				symNodes[s] = append(symNodes[s], n)
 			}
